@@ -473,3 +473,84 @@ def rf33(run):
             run.violation(rule, f, 'skipped edge', 'an iteration of the JMPI-to-label loop can skip create_edge under %s, which is not the '
                           '"same label as the previous one" test' % conds, line=inner[0]['l'])
     run.min_instances(rule, 8)
+
+
+# ---------------------------------------------------------------------------------------------
+# RF32: passes that delete, merge or move instructions protect the opcodes with effects beyond their result registers
+# ---------------------------------------------------------------------------------------------
+
+def rf32(run):
+    rule = 'RF32'
+    run.rule(rule, 'over the opcode domain: (a) the two dead-code deciders (ssa_dead_insn_p, the deletion test of '
+                   'dead_code_elimination) never classify a call-family instruction, VA_ARG or BSTART as removable although their '
+                   'result registers are dead; (b) fixed_place_insn_p (GVN redundancy elimination) holds for the call family, ALLOCA, '
+                   'BSTART/BEND and VA_START/VA_ARG/VA_END; (c) loop_invariant_p rejects those and the trapping DIV/MOD family, so none is '
+                   'hoisted out of a loop')
+    gen = run.tu('gen')
+    preds = EF.Predicates(gen)
+    codes = dict(gen.enum('MIR_insn_code_t'))
+    calls = ['MIR_CALL', 'MIR_INLINE', 'MIR_JCALL']
+    with_out = calls + ['MIR_VA_ARG', 'MIR_BSTART']
+    fixed = calls + ['MIR_ALLOCA', 'MIR_BSTART', 'MIR_BEND', 'MIR_VA_START', 'MIR_VA_ARG', 'MIR_VA_END']
+    hoist = fixed + ['MIR_VA_BLOCK_ARG', 'MIR_DIV', 'MIR_DIVS', 'MIR_UDIV', 'MIR_UDIVS', 'MIR_MOD', 'MIR_MODS', 'MIR_UMOD', 'MIR_UMODS', 'MIR_RET', 'MIR_JRET']
+
+    def first_false_guard(f):
+        for st in F.kids(f.body):
+            if st['k'] == 'IfStmt':
+                th = st['c'][1]
+                rets = [x for x in F.walk(th) if x['k'] == 'ReturnStmt']
+                if rets and all(F.kids(r_) and F.const_value(F.kids(r_)[0]) == 0 for r_ in rets):
+                    return st
+        return None
+
+    def judge(site, f, expr, env_extra, protected, want, what):
+        for c in protected:
+            env = {'insn->code': codes[c], 'code': codes[c]}
+            env.update(env_extra)
+            v = preds.eval(expr, env, frozenset())
+            ok = v is not None and bool(v) == want
+            run.ob(rule, (site, c), ok, {'site': site, 'opcode': c, 'test evaluates to': v, 'required': int(want)})
+            if not ok:
+                if v is None:
+                    raise F.AnalysisBroken('%s: the test is not decided by the opcode alone for %s' % (site, c))
+                run.violation(rule, f, '%s for %s' % (site, c), '%s: %s %s' % (f.name, c, what), line=expr['l'])
+    # (a) ssa_dead_insn_p
+    f = gen.func('ssa_dead_insn_p')
+    run.functions_analysed.add(('gen', f.name))
+    g = first_false_guard(f)
+    if g is None:
+        raise F.AnalysisBroken('ssa_dead_insn_p: the leading `if (…) return FALSE` guard was not found')
+    judge('ssa_dead_insn_p guard', f, g['c'][0], {}, with_out, True,
+          'is not excluded by the leading guard: with dead result registers it is deleted although it has another effect')
+    # (a) dead_code_elimination
+    f = gen.func('dead_code_elimination')
+    run.functions_analysed.add(('gen', f.name))
+    site = None
+    for x in f.walk():
+        if x['k'] == 'IfStmt' and 'dead_p' in F.src(x['c'][0]) and any(y['k'] == 'CallExpr' and y.get('callee') in ('gen_delete_insn', 'ssa_delete_insn') for y in F.walk(x['c'][1])):
+            site = x
+    if site is None:
+        raise F.AnalysisBroken('dead_code_elimination: the deletion test on dead_p was not found')
+    judge('dead_code_elimination deletion test', f, site['c'][0], {'dead_p': 1}, with_out, False,
+          'can be deleted when its result registers are dead although it has another effect')
+    # (b) fixed_place_insn_p
+    f = gen.func('fixed_place_insn_p')
+    run.functions_analysed.add(('gen', f.name))
+    body = F.kids(f.body)
+    if len(body) != 1 or body[0]['k'] != 'ReturnStmt':
+        raise F.AnalysisBroken('fixed_place_insn_p is no longer a single return expression')
+    judge('fixed_place_insn_p', f, F.kids(body[0])[0], {}, fixed, True,
+          'is not a fixed-place instruction: GVN may replace it by an earlier occurrence with the same operands')
+    users = [h.name for h in gen.func_list if h.body is not None and any(y['k'] == 'CallExpr' and y.get('callee') in ('gvn_insn_p', 'fixed_place_insn_p') for y in h.walk())]
+    run.ob(rule, ('fixed-place users',), len(users) >= 2, {'callers of gvn_insn_p / fixed_place_insn_p': sorted(users)})
+    if len(users) < 2:
+        raise F.AnalysisBroken('gvn_insn_p / fixed_place_insn_p have %d callers' % len(users))
+    # (c) loop_invariant_p
+    f = gen.func('loop_invariant_p')
+    run.functions_analysed.add(('gen', f.name))
+    g = first_false_guard(f)
+    if g is None:
+        raise F.AnalysisBroken('loop_invariant_p: the leading `if (…) return FALSE` guard was not found')
+    judge('loop_invariant_p guard', f, g['c'][0], {}, hoist, True,
+          'is not excluded from loop-invariant code motion: it would be executed a different number of times (or trap on a path that did not execute it)')
+    run.min_instances(rule, 30)
